@@ -1421,6 +1421,7 @@ func (x *Exec) execFor(n *ast.ForStmt, st *State, label string) *State {
 	ms := x.modifiedIn(n.Body, n.Post, n.Cond)
 	head := st.clone()
 	x.havoc(head, ms, fmt.Sprintf("L%d", ord))
+	x.havocLoopAliases(st, head, n.Body, n.Post, n.Cond)
 	itv := x.c.fresh(fmt.Sprintf("L%d.IT", ord), SInt)
 	x.c.assume(head.pc, tGe(itv, "0"))
 	head.ghost["IT"] = scInt(itv)
@@ -1589,6 +1590,7 @@ func (x *Exec) execRange(n *ast.RangeStmt, st *State, label string) *State {
 	}
 	head := st.clone()
 	x.havoc(head, ms, fmt.Sprintf("L%d", ord))
+	x.havocLoopAliases(st, head, n.Body)
 	i := head.vars[idxObj].(Sc).T
 	head.ghost["K"] = scInt(i)
 	c.assume(head.pc, tAnd(tLe("0", i), tLe(i, count)))
@@ -1688,6 +1690,7 @@ func (x *Exec) execRangeMap(n *ast.RangeStmt, st *State, label string, m Mp, key
 	}
 	head := st.clone()
 	x.havoc(head, ms, fmt.Sprintf("L%d", ord))
+	x.havocLoopAliases(st, head, n.Body)
 	seen := c.fresh(fmt.Sprintf("L%d.seen", ord), arrSort(m.KS, SBool))
 	head.ghost[seenName] = Sc{seen, arrSort(m.KS, SBool)}
 	head.ghost["seen"] = head.ghost[seenName]
